@@ -758,6 +758,146 @@ func c13danglingFamily() []c13dangling {
 }
 
 // ---------------------------------------------------------------------------------------------
+// rule-list family
+
+// rule kinds of a basic list: ordinary rule on the shared host, ordinary rule on its own host,
+// wildcard-host rule, rule handing over to the advanced table, rule naming a cluster that is
+// not in cluster_conf.
+var c13basicKinds = []string{"R", "H", "W", "A", "G"}
+
+// rule kinds of an advanced list: host condition, default condition, ghost cluster, and the
+// name ADVANCED_MODE (which is not a cluster) as an advanced target.
+var c13advKinds = []string{"R", "D", "G", "M"}
+
+func c13sequences(nKinds, maxLen int, f func(seq []int)) {
+	var seq []int
+	var rec func()
+	rec = func() {
+		if len(seq) > 0 {
+			f(append([]int(nil), seq...))
+		}
+		if len(seq) == maxLen {
+			return
+		}
+		for k := 0; k < nKinds; k++ {
+			seq = append(seq, k)
+			rec()
+			seq = seq[:len(seq)-1]
+		}
+	}
+	rec()
+}
+
+func c13seqName(kinds []string, seq []int) string {
+	var sb strings.Builder
+	for _, k := range seq {
+		sb.WriteString(kinds[k])
+	}
+	return sb.String()
+}
+
+// neighbour content: what else the configuration holds besides the list under test.
+// basic list under test: ctx 0 = other product absent, 1 = other product has a basic list
+// [ADVANCED_MODE rule, ordinary rule] + default advanced rule, 2 = other product has ordinary
+// basic rules only. The product under test always has a default advanced rule.
+// advanced list under test: ctx 0 = no basic rules at all, 1 = the product under test also has
+// basic rules [ordinary, ADVANCED_MODE], 2 = as 1 and the other product has [ADVANCED_MODE,
+// ordinary] + default advanced rule.
+func c13listContexts(which string) int { return 3 }
+
+func c13basicRule(kind string, i int) string {
+	path := fmt.Sprintf(`"Path":["/r%d"]`, i)
+	switch kind {
+	case "R":
+		return `{"Hostname":["www.a.com"],` + path + `,"ClusterName":"c1"}`
+	case "H":
+		return fmt.Sprintf(`{"Hostname":["h%d.a.com"],`, i) + path + `,"ClusterName":"c2"}`
+	case "W":
+		return `{"Hostname":["*.a.com"],` + path + `,"ClusterName":"c3"}`
+	case "A":
+		return `{"Hostname":["www.a.com"],` + path + `,"ClusterName":"ADVANCED_MODE"}`
+	case "G":
+		return `{"Hostname":["www.a.com"],` + path + `,"ClusterName":"ghost"}`
+	}
+	panic("c13: basic kind " + kind)
+}
+
+func c13advRule(kind string, i int) string {
+	switch kind {
+	case "R":
+		return fmt.Sprintf(`{"Cond":"req_host_in(\"h%d.a.com\")","ClusterName":"c1"}`, i)
+	case "D":
+		return `{"Cond":"default_t()","ClusterName":"c2"}`
+	case "G":
+		return fmt.Sprintf(`{"Cond":"req_host_in(\"g%d.a.com\")","ClusterName":"ghost"}`, i)
+	case "M":
+		return fmt.Sprintf(`{"Cond":"req_host_in(\"m%d.a.com\")","ClusterName":"ADVANCED_MODE"}`, i)
+	}
+	panic("c13: adv kind " + kind)
+}
+
+// c13ruleListRoute renders the route file and says whether it holds a broken reference.
+func c13ruleListRoute(which string, kinds []string, seq []int, ctx int, prod string) (string, bool) {
+	other := "p2"
+	if prod == "p2" {
+		other = "p1"
+	}
+	broken := false
+	var rules []string
+	for i, k := range seq {
+		kind := kinds[k]
+		if kind == "G" || kind == "M" {
+			broken = true
+		}
+		if which == "basic" {
+			rules = append(rules, c13basicRule(kind, i))
+		} else {
+			rules = append(rules, c13advRule(kind, i))
+		}
+	}
+	list := "[" + strings.Join(rules, ",") + "]"
+	def := `[{"Cond":"default_t()","ClusterName":"c3"}]`
+	basic := map[string]string{}
+	adv := map[string]string{}
+	if which == "basic" {
+		basic[prod] = list
+		adv[prod] = def
+		switch ctx {
+		case 1:
+			basic[other] = `[{"Hostname":["x.b.com"],"ClusterName":"ADVANCED_MODE"},{"Hostname":["y.b.com"],"ClusterName":"c1"}]`
+			adv[other] = def
+		case 2:
+			basic[other] = `[{"Hostname":["x.b.com"],"ClusterName":"c2"},{"Path":["/o"],"ClusterName":"c1"}]`
+		}
+	} else {
+		adv[prod] = list
+		switch ctx {
+		case 1:
+			basic[prod] = `[{"Hostname":["y.b.com"],"ClusterName":"c1"},{"Hostname":["x.b.com"],"ClusterName":"ADVANCED_MODE"}]`
+		case 2:
+			basic[prod] = `[{"Hostname":["y.b.com"],"ClusterName":"c1"},{"Hostname":["x.b.com"],"ClusterName":"ADVANCED_MODE"}]`
+			basic[other] = `[{"Hostname":["x.c.com"],"ClusterName":"ADVANCED_MODE"},{"Hostname":["y.c.com"],"ClusterName":"c2"}]`
+			adv[other] = def
+		}
+	}
+	obj := func(m map[string]string) string {
+		var parts []string
+		for _, p := range []string{"p1", "p2"} {
+			if v, ok := m[p]; ok {
+				parts = append(parts, `"`+p+`":`+v)
+			}
+		}
+		return "{" + strings.Join(parts, ",") + "}"
+	}
+	route := `{"Version":"g1"`
+	if len(basic) > 0 {
+		route += `,"BasicRule":` + obj(basic)
+	}
+	route += `,"ProductRule":` + obj(adv) + `}`
+	return route, broken
+}
+
+// ---------------------------------------------------------------------------------------------
 
 type c13env struct {
 	r       *vk.Run
@@ -1066,6 +1206,56 @@ func TestVerifC13(t *testing.T) {
 		r.Nontrivial(id)
 		r.Sample(map[string]interface{}{"dangling": d.name, "outcome": out, "error": fmt.Sprint(res.err)})
 	}
+
+	// ---- (a)+(b) rule-list family: every rule list of length 1..L over the rule kinds, for the
+	// basic and the advanced list, in either of two products, beside every neighbour product.
+	// A list without a broken reference is a documented configuration and must load; a list
+	// with a ghost cluster at any position must never be accepted with the reference dangling.
+	maxLen := r.Pick(4, 5)
+	nLists := 0
+	for _, which := range []string{"basic", "adv"} {
+		kinds := c13basicKinds
+		if which == "adv" {
+			kinds = c13advKinds
+		}
+		c13sequences(len(kinds), maxLen, func(seq []int) {
+			for ctx := 0; ctx < c13listContexts(which); ctx++ {
+				for _, prod := range []string{"p1", "p2"} {
+					idx++
+					if !r.Mine(idx) {
+						continue
+					}
+					name := c13seqName(kinds, seq)
+					id := vk.Key("rulelist", which, name, ctx, prod)
+					if !r.Case(id) {
+						continue
+					}
+					route, broken := c13ruleListRoute(which, kinds, seq, ctx, prod)
+					files := []string{c13hostVariants[2].text, c13vipVariants[1].text, route, c13clusterVariants[1].text}
+					res := e.run(sdc, files)
+					out := e.judge(sdc, id, res, files)
+					nLists++
+					if len(seq) >= 2 {
+						r.NontrivialN(1)
+					}
+					switch {
+					case broken:
+						r.Outcome("rulelist-broken:" + out)
+					case out == "rejected":
+						r.Outcome("rulelist-valid:rejected")
+						r.Violation("documented-loads:sdc:rule-list-"+which+":rejected", id,
+							fmt.Sprintf("valid %s rule list %s (product %s, context %d) rejected: %v; files %s", which, name, prod, ctx, res.err, c13show(files)))
+					default:
+						r.Outcome("rulelist-valid:" + out)
+					}
+					if broken && len(seq) == 3 && seq[0] != seq[2] && ctx == 1 && prod == "p2" {
+						r.Sample(map[string]interface{}{"rulelist": id, "outcome": out, "error": fmt.Sprint(res.err)})
+					}
+				}
+			}
+		})
+	}
+	r.Add("sum_rule_list_configurations", int64(nLists))
 
 	// ---- (c) structural mutations (+ (b) on every accepted mutant)
 	double := r.Thorough()
